@@ -73,6 +73,17 @@ show (const char *tag, const char *s)
   if (!*s) printf (".");
 }
 
+#include <pthread.h>
+struct thr_arg { const char *p, *s; char *ret; char copy[400]; };
+static void *
+thr_crypt (void *v)
+{
+  struct thr_arg *t = v;
+  t->ret = old_crypt (t->p, t->s);
+  snprintf (t->copy, sizeof t->copy, "%s", t->ret ? t->ret : "");
+  return 0;
+}
+
 static long n_viol;
 #define VIOL(...) do { n_viol++; printf ("VIOL "); printf (__VA_ARGS__); printf ("\n"); } while (0)
 
@@ -216,6 +227,26 @@ main (void)
           for (int i = 0; i < 8; i++) { int v = 0; for (int j = 0; j < 8; j++) v = (v << 1) | (b64[i * 8 + j] & 1); printf ("%02x", v); }
           printf ("\n");
           free (k); free (b); free (p); free (s);
+        }
+      else if (a[0][0] == 't' && n >= 3)
+        {
+          /* the static result of crypt/fcrypt is ONE process-wide buffer: a string returned to a worker thread
+             is still there, at the same address, after that thread has exited */
+          long pl, sl;
+          char *p = unhex (a[1], &pl), *s = unhex (a[2], &sl);
+          struct thr_arg ta = { p, s, 0, { 0 } };
+          pthread_t th;
+          if (!pthread_create (&th, 0, thr_crypt, &ta))
+            {
+              pthread_join (th, 0);
+              char *mine = old_crypt (p, s);
+              char now[400];
+              snprintf (now, sizeof now, "%s", ta.ret ? ta.ret : "");   /* read after the thread is gone */
+              printf ("T same-address=%d survives=%d", ta.ret == mine, mine && !strcmp (ta.copy, mine));
+              show ("thread", ta.copy[0] ? ta.copy : 0); printf ("\n");
+              (void) now;
+            }
+          free (p); free (s);
         }
       else if (a[0][0] == 'p')
         {
